@@ -7,6 +7,7 @@ from ..rules import flow_of, state_writes, facts_at, canon, cmp_norm, calls_in, 
 from ..units import check_units
 from ..tables import UNITS
 from ..bounds import sig, MIN_NAMES
+from ..flow import linear
 
 EXPLANATION = ("(R1) dimension-and-scale inference over both converters, the datetime->period conversion and the two-stage "
                "capacity fit, including every argument of the capacity-function protocol (kWh, periods, V, min) at both call "
@@ -247,7 +248,145 @@ def rule_fit(ck, rid="C15.R1"):
         ck.require(ok, rid, f, r.stmt, ok="returns (capacity, initial charge for that capacity)", bad="batt_cap_fn must return (capacity, _get_init_cap(capacity))", sink="fit-return")
 
 
+def fn_by_last(repo, last):
+    c = [f for q, fs in repo.funcs.items() for f in fs if q.split(".")[-1] == last and f.module.endswith("models/battery.py")]
+    if len(c) != 1:
+        raise AnalysisError(f"capacity fit: helper `{last}` not found exactly once in models/battery.py ({len(c)})")
+    return c[0]
+
+
+def rule_fit_logic(ck, rid="C15.R6"):
+    """control structure of the two-stage capacity fit: the closed-form start (valid only when the session starts at or above the
+    transition SoC) is returned only under the test of that assumption on its own result; the search is entered only when the request
+    is reachable from an empty battery (otherwise the -1 marker); the bisection of the decreasing gain function moves the lower end up
+    when the gain is still above the target and the upper end down otherwise; batt_cap_fn hands out (capacity, initial) only for a
+    non-negative initial charge (the explicit `request > capacity` skip is redundant with
+    the marker: such a capacity never fits - catalogue n124)"""
+    repo = ck.repo
+    g = fn_by_last(repo, "_get_init_cap")
+    fl = flow_of(g)
+    cfg = fl.cfg
+    ts = "transition_soc"
+    rets = [n for n in cfg.nodes if n.kind == "return" and n.expr is not None]
+    n_closed = n_search = n_marker = 0
+    searcher = None
+    for r in rets:
+        e = fl.expand(r.expr, r)
+        if isinstance(e, ast.UnaryOp) and isinstance(e.operand, ast.Constant) or isinstance(e, ast.Constant):
+            n_marker += 1
+            # -1: only when even an empty battery cannot take the request in the stay
+            ok = False
+            for a, t in facts_at(fl, r):
+                c = cmp_norm(fl.expand(a, r), t)
+                if c and c[1] in ("<", "<=") and canon(c[2]) == "requested_energy / battery_cap" and isinstance(c[0], ast.Call) and c[0].args and canon(c[0].args[0]) == "0":
+                    ok = True
+            ck.require(ok, rid, g, r.stmt, ok="the infeasibility marker is returned only when gain(0) < requested SoC gain",
+                       bad="the `-1` (no fit with this capacity) return is not guarded by `gain from an empty battery < requested gain`", sink="fit:marker-guard")
+            continue
+        if not (isinstance(e, ast.BinOp) and isinstance(e.op, ast.Mult)):
+            ck.violation(rid, g, r.stmt, f"the initial-charge helper returns `{canon(e)[:60]}`: neither an initial SoC times the capacity nor the -1 marker", sink="fit:return-form")
+            continue
+        soc = e.left if canon(e.right) == "battery_cap" else e.right if canon(e.left) == "battery_cap" else None
+        if soc is None:
+            ck.violation(rid, g, r.stmt, "the returned initial charge is not (initial SoC) x (battery capacity)", sink="fit:return-form")
+            continue
+        if "exp(" in canon(soc) and not (isinstance(soc, ast.Call) and "exp" not in (call_name(soc) or "")):
+            n_closed += 1
+            ok = False
+            for a, t in facts_at(fl, r):
+                c = cmp_norm(fl.expand(a, r), t)
+                if c and c[1] in ("<", "<=") and canon(c[0]) == ts and canon(c[2]) == canon(soc):
+                    ok = True
+            ck.require(ok, rid, g, r.stmt, ok="the closed-form start is returned only when it is itself >= the transition SoC (its own assumption)",
+                       bad="the closed-form initial SoC (derived for a session that starts at or above the transition SoC) is returned without testing "
+                           "that it is >= transition_soc: below it the battery cannot take the assumed rate and the request is not delivered", sink="fit:closed-form-guard")
+        elif isinstance(soc, ast.Call):
+            n_search += 1
+            searcher = (soc, r)
+            ok = False
+            for a, t in facts_at(fl, r):
+                c = cmp_norm(fl.expand(a, r), t)
+                if c and c[1] == "<=" and canon(c[0]) == "requested_energy / battery_cap" and isinstance(c[2], ast.Call) and c[2].args and canon(c[2].args[0]) == "0":
+                    ok = True
+            ck.require(ok, rid, g, r.stmt, ok="the search runs only when the request is reachable from an empty battery",
+                       bad="the bisection is entered without `gain(0) >= requested gain` being established (it does not terminate otherwise)", sink="fit:search-guard")
+        else:
+            ck.violation(rid, g, r.stmt, f"initial SoC `{canon(soc)[:60]}` is neither the closed form nor the result of the search", sink="fit:return-form")
+    ck.floor(rid, n_closed, 1, "closed-form returns of the initial-charge helper")
+    ck.floor(rid, n_search, 1, "search returns of the initial-charge helper")
+    ck.floor(rid, n_marker, 1, "infeasibility-marker returns of the initial-charge helper")
+    # the bisection
+    if searcher is None:
+        return
+    call, at = searcher
+    b = fn_by_last(repo, call_name(call))
+    bl = flow_of(b)
+    ba = bind_args(call, b, method=False)
+    roles = {}
+    for p_, a in ba.items():
+        ca = canon(a)
+        if ca == "requested_energy / battery_cap":
+            roles["target"] = p_
+        elif isinstance(a, ast.Name) and any(q.split(".")[-1] == ca for q in repo.funcs):
+            roles["gain"] = p_
+    rest = [p_ for p_ in b.params if p_ in ba and p_ not in roles.values()]
+    if len(rest) != 2 or set(roles) != {"target", "gain"}:
+        raise AnalysisError(f"capacity fit: roles of the bisection's parameters not identified ({roles}, {rest})")
+    lo, hi = rest
+    mid_forms = {f"({lo} + {hi}) / 2", f"({hi} + {lo}) / 2", f"0.5 * ({lo} + {hi})", f"({lo} + {hi}) * 0.5", f"{lo} + ({hi} - {lo}) / 2"}
+    n_rec = 0
+    for r in [n for n in bl.cfg.nodes if n.kind == "return" and n.expr is not None]:
+        e = r.expr
+        if isinstance(e, ast.Call) and call_name(e) == call_name(call):
+            n_rec += 1
+            bb = bind_args(e, b, method=False)
+            al, ah = canon(bl.expand(bb[lo], r)), canon(bl.expand(bb[hi], r))
+            above = None        # is the gain at mid known to be above the target on this path?
+            for a, t in facts_at(bl, r):
+                c = cmp_norm(bl.expand(a, r), t)
+                if not c or c[1] not in ("<", "<="):
+                    continue
+                d = linear(ast.BinOp(left=c[2], op=ast.Sub(), right=c[0]), norm=canon)        # c[2] - c[0] >= 0
+                tgt = roles["target"]
+                keys = {k for k in d.t if d.t[k]} if d is not None else set()
+                if d is not None and len(keys) == 2 and tgt in keys:
+                    other = next(k for k in keys if k != tgt)
+                    if roles["gain"] + "(" in other and d.c == 0:
+                        sign = d.t[other]           # (+1: gain - target > 0 known)  (-1: target - gain >= 0)
+                        if c[1] == "<" and sign > 0:
+                            above = True
+                        elif sign < 0:
+                            above = False
+            if above is None:
+                ck.violation(rid, b, e, "a recursive bisection step is not decided by comparing the gain at the midpoint with the target", sink="fit:bisect-undecided")
+            elif above:
+                ck.require(al in mid_forms and ah == hi, rid, b, e, ok="gain above target: the start can be higher - lower end moves to mid (gain is decreasing)",
+                           bad=f"gain(mid) > target but the search continues on ({al}, {ah}): for a decreasing gain the lower end must move up to mid", sink="fit:bisect-above")
+            else:
+                ck.require(al == lo and ah in mid_forms, rid, b, e, ok="gain not above target: upper end moves to mid",
+                           bad=f"gain(mid) <= target but the search continues on ({al}, {ah}): the upper end must move down to mid", sink="fit:bisect-below")
+    ck.floor(rid, n_rec, 2, "recursive steps of the bisection")
+    # batt_cap_fn: hand out only a non-negative initial charge, and only capacities that can hold the request
+    f = repo.fn("batt_cap_fn")
+    ffl = flow_of(f)
+    for r in [n for n in ffl.cfg.nodes if n.kind == "return" and n.expr is not None]:
+        e = ffl.expand(r.expr, r)
+        if not (isinstance(e, ast.Tuple) and len(e.elts) == 2):
+            continue
+        ok_init = False
+        for a, t in facts_at(ffl, r):
+            c = cmp_norm(a, t)
+            if not c:
+                continue
+            l, op, rr = canon(ffl.expand(c[0], r)), c[1], canon(ffl.expand(c[2], r))
+            if op == "<=" and l == "0" and "_get_init_cap(" in rr:
+                ok_init = True
+        ck.require(ok_init, rid, f, r.stmt, ok="a fit is returned only when the initial charge is >= 0 (-1 marks `no fit`)",
+                   bad="batt_cap_fn returns a (capacity, initial charge) pair without testing the initial charge against the -1 `no fit` marker", sink="fit:init-nonneg")
+
+
 def run(ck):
+    rule_fit_logic(ck)
     rule_units(ck)
     rule_acndata(ck)
     rule_stochastic(ck)
